@@ -356,6 +356,58 @@ def xml_new_element(parent_matches: bool, line: int, content: str) -> bool:
     return fin(out == "</q>" and h.changes == [])
 
 
+SEQ_CONTENT = ["", "a", "<", "&]", "x y"]
+
+
+def xml_event_sequence(k0: int, k1: int, k2: int, csel: int) -> bool:
+    """A sequence of three lexical / content events of symbolic kinds (character data, CDATA section, comment,
+    empty element): what the handler writes is the concatenation of what each event writes on its own - no state
+    leaks from one event into the next (e.g. a CDATA section must not switch escaping off for later text).  Content
+    is chosen from a pool of 5 strings (empty, plain, markup, ampersand + bracket, with a space).
+    post: _
+    """
+    i = 0
+    while i < 4:
+        if csel % 5 == i:
+            break
+        i += 1
+    c = SEQ_CONTENT[i]
+    from xml.sax.saxutils import escape
+
+    def emit(h, kind):
+        if kind % 4 == 0:
+            h.characters(c)
+        elif kind % 4 == 1:
+            h.startCDATA()
+            h.characters(c)
+            h.endCDATA()
+        elif kind % 4 == 2:
+            h.comment("k")
+        else:
+            h.startElement("x", AttributesImpl({}))
+            h.endElement("x")
+
+    def alone(kind):
+        h, sink, _ = _handler()
+        h.startElement("e", AttributesImpl({}))
+        before = len(sink.text())
+        emit(h, kind)
+        return sink.text()[before:]
+
+    h, sink, _ = _handler()
+    h.startElement("e", AttributesImpl({}))
+    before = len(sink.text())
+    for kind in (k0, k1, k2):
+        emit(h, kind)
+    from crosshair.core import deep_realize
+    from crosshair.tracers import NoTracing
+
+    got, exp = deep_realize(sink.text()[before:]), deep_realize(alone(k0) + alone(k1) + alone(k2))
+    with NoTracing():
+        same = got == exp
+    return fin(same)
+
+
 def planted_cdata_escape(c: str) -> bool:
     """Self-test: escaping inside CDATA must be refuted by the CDATA obligation's oracle.
     pre: len(c) <= 2
@@ -380,6 +432,7 @@ def warmup():
     xml_match_result(1, 0, [(1, 1)], False, False)
     xml_element_attrs(True, True, 2, 3, 2, 4, False)
     xml_new_element(True, 3, "x<")
+    xml_event_sequence(1, 0, 2, 2)
 
 
 SPEC = {
@@ -415,6 +468,7 @@ SPEC = {
         Xh("xml_match_result", 120, 300),
         Xh("xml_element_attrs", 120, 300),
         Xh("xml_new_element", 120, 300),
+        Xh("xml_event_sequence", 200, 600),
         Xh("planted_cdata_escape", 60, 120, twin=False, expect="refuted"),
     ],
 }
